@@ -18,6 +18,12 @@ SPEC = dict(
                  I('scram_first_kf', 'h_scram_first_kf', (2, 2, 1), known_finding=KF_USER, bound='as scram_first'),
                  I('scram_exchange', 'h_scram_exchange', (2, 0, 1, 3, 2, 1), unwind=12,
                    bound='client nonce 2 bytes, server nonce field 3 bytes, salt field 2 bytes, iteration field 1 byte (all arbitrary, no ","), password 1 unit, all 4 SCRAM hashes; server-final v= arbitrary 4-byte signature'),
+                 I('scram_exchange_ext', 'h_scram_exchange', (2, 0, 1, 3, 2, 1, 3, 0), unwind=12,
+                   bound='as scram_exchange, server-first = r=..,s=..,i=.. followed by one extension attribute of 3 arbitrary bytes (not r=/s=/i=)'),
+                 I('scram_exchange_mext', 'h_scram_exchange', (2, 0, 1, 3, 2, 1, 3, 1), unwind=12, tiers=('thorough',),
+                   bound='as scram_exchange, server-first preceded by one attribute of 3 arbitrary bytes (reserved-mext position)'),
+                 I('scram_exchange_order', 'h_scram_exchange', (2, 0, 1, 3, 2, 1, 0, 2), unwind=12,
+                   bound='as scram_exchange, attributes in the order i=,s=,r='),
                  I('scram_exchange_long', 'h_scram_exchange', (3, 0, 2, 5, 4, 2), unwind=16, tiers=('thorough',), timeout_s=300, cdefs={'QB_CAP': 64}, model_loop_bound=66,
                    bound='client nonce 3 bytes, server nonce field 5, salt field 4, iteration field 2, password 2 units'),
                  I('scram_exchange_user', 'h_scram_exchange', (2, 1, 1, 3, 2, 1), unwind=12, tiers=('thorough',), timeout_s=300,
